@@ -192,6 +192,10 @@ class C07(Check):
             out.append({'kind': 'esc', 's': s})
         for i in range(n // 2):
             out.append({'kind': 'doc', 'tree': plain_tree(rng), 'ns': None if i % 3 else BASE})
+        for i in range(n // 4):
+            # the <rpc> envelope around a namespace-free operation tree, with a message-id that may contain anything
+            out.append({'kind': 'env', 'tree': plain_tree(rng), 'mid': rng.choice(['urn:uuid:0', nasty(rng), nasty(rng)]),
+                        'profile': ['default', 'junos', 'iosxr', 'csr'][i % 4]})
         return out
 
     def search(self, tier, rng, broken):
@@ -204,6 +208,20 @@ class C07(Check):
             r = self._rows[case['i']]
             return {kk: r.get(kk) for kk in ('op', 'profile', 'shape', 'args', 'capsMode', 'outcome', 'nsent', 'asserted', 'probedMinus', 'outsider',
                                              'rootNs', 'rootName', 'hasMsgId', 'nOps', 'opNs', 'opName', 'params', 'sentinels', 'enumLeaves')}
+        if k == 'env':
+            from impl.rpcstub import make_manager
+            from ncclient.operations.rpc import RPC
+            m, sess, dh = make_manager(profile=case['profile'], raise_mode=0)
+            try:
+                op = plain_build(case['tree'])
+                r = RPC(sess, dh)
+                r._id = case['mid']
+                xml = r._wrap(op)
+            except ValueError as e:
+                return {'unbuildable': repr(e)[:120]}
+            body = xml[xml.index('?>') + 2:] if xml.startswith('<?xml') else xml
+            root = ET.fromstring(xml.encode('utf-8'))
+            return {'ser': body, 'mid': root.get('message-id'), 'root': root.tag, 'ops': [plain_from_etree(c) for c in root]}
         if k == 'doc':
             from ncclient.xml_ import to_xml, to_ele
             try:
@@ -285,11 +303,16 @@ class C07(Check):
             return ['xt esctext ' + hexs(s), 'xt escattr ' + hexs(s)]
         if case['kind'] == 'doc' and not case.get('ns'):
             return ['xd rt ' + ' '.join(plain_toks(case['tree']))]
+        if case['kind'] == 'env':
+            return ['xd rpc %s %s %s' % (hexs('nc:'), hexs(case['mid']), ' '.join(plain_toks(case['tree'])))]
         return []
 
     def model_obs(self, case, outs):
         if case['kind'] == 'esc':
             return {'esctext': unhexs(outs[0]), 'escattr': unhexs(outs[1])}
+        if case['kind'] == 'env':
+            t = outs[0].split(' ')
+            return {'ser': unhexs(t[0]), 'mid': None if t[1] in ('-', 'none') else unhexs(t[1])} if len(t) == 2 else {'bad': outs[0]}
         if case['kind'] == 'doc' and outs:
             toks = outs[0].split(' ')
             if len(toks) < 3:
@@ -304,6 +327,14 @@ class C07(Check):
             for k in ('esctext', 'escattr'):
                 if io[k] != mo[k]:
                     return '%s of %r: lxml %r, model %r' % (k, case['s'][:40], io[k][:80], mo[k][:80])
+        if case['kind'] == 'env':
+            if 'unbuildable' in io:
+                return None
+            if io['ser'] != mo.get('ser'):
+                return '<rpc> envelope differs: _wrap %r, model %r' % (io['ser'][:200], str(mo.get('ser'))[:200])
+            if io['mid'] != mo.get('mid'):
+                return 'message-id read back differs: expat %r, model %r' % (io['mid'], mo.get('mid'))
+            return None
         if case['kind'] == 'doc':
             if 'unbuildable' in io:
                 return None
@@ -328,6 +359,13 @@ class C07(Check):
         if k == 'esc':
             if io['readtext'] != case['s'] or io['readattr'] != case['s']:
                 return ('C07:escape-roundtrip', 'string %r does not survive serialise + independent parse' % case['s'][:60])
+            return None
+        if k == 'env':
+            if 'unbuildable' in io:
+                return None
+            if io['root'] != '{%s}rpc' % BASE or io['mid'] != case['mid'] or io['ops'] != [case['tree']]:
+                return ('C07:envelope-altered', 'the <rpc> envelope read by an independent parser: root %s, message-id %r (generated %r), operation %s the one that was built' % (
+                    io['root'], io['mid'], case['mid'], 'is' if io['ops'] == [case['tree']] else 'is NOT'))
             return None
         if k == 'doc':
             if 'unbuildable' in io:
@@ -382,7 +420,7 @@ class C07(Check):
             return io['outcome'] == 'sent' and bool(io.get('sentinels'))
         if case['kind'] == 'esc':
             return any(c in case['s'] for c in '<>&"\r\n\t')
-        if case['kind'] == 'doc':
+        if case['kind'] in ('doc', 'env'):
             return 'ser' in io and any(c in io['ser'] for c in ('&lt;', '&amp;', '&quot;', '&#13;'))
         return io.get('sent') == 1
 
